@@ -70,6 +70,8 @@ def ops(kind):
     O["opassign_second"] = lambda X, Y, v: [A.OpAssign("+", second(X), I(100))]
     O["mutate_nested"] = lambda X, Y, v: [A.Assign(A.Index(first(X), I(0)) if L else A.Prop(first(X), "k", False), I(v))]
     O["destructure_alias"] = lambda X, Y, v: [A.Assign(A.lst(V(X), V("_")) if L else A.ObjectE([A.Pair(S("k"), V(X)), A.Pair(S("m"), V("_"))]), wrap(V(Y)))]
+    O["slot_concat"] = lambda X, Y, v: [A.OpAssign("+", first(X), A.lst(I(v)))]
+    O["slot_concat_alias"] = lambda X, Y, v: [A.Assign(first(X), A.lst(I(v))), A.Assign(second(Y), first(X)), A.OpAssign("+", first(X), A.lst(I(v + 1)))]
     if L:
         O["copy_concat"] = lambda X, Y, v: [A.Assign(V(X), A.Bin("+", V(Y), A.lst()))]
         O["copy_range_all"] = lambda X, Y, v: [A.Assign(V(X), A.RangeIndex(V(Y), None, None))]
